@@ -61,6 +61,9 @@ def run(ctx):
     value_error_rule(ctx)
     py_signature_rule(ctx)
     ctor_unguarded_rule(ctx)
+    mp_ = c11.ctor_rule(dep(ctx, "C13", "C11"), "C11.C", "pybindings::cgr::CgrComputer::new", "pybindings::cgr::CgrComputer")
+    if mp_ is not None:
+        c11.table_rule(dep(ctx, "C13", "C11"), "C11.T", mp_)      # the ValueError edge is a miss in this table: its key set is the alphabet
     batch_rule(ctx)
     registration_rule(ctx)
     profile_rule(ctx)
@@ -98,6 +101,25 @@ def delegation_rule(ctx, g):
         ctx.check("C13.D", "%s:__next__" % short, ok, "__next__ = core next() on the owned generator, returned unchanged",
                   "__next__ is `%s`; expected a bare `slf.%s.next()` resolving to %s"
                   % (show(fn.term(body)) if body else "?", g["gen"], g["core_next"]), fn.fn["sp"])
+    fi = ctx.need("C13.D", g["next"].replace("__next__", "__iter__"))
+    if fi is not None:
+        body = fi.body.get("expr")
+        t = fi.term(body) if body is not None else ("none",)
+        ok = not fi.body.get("stmts") and t[0] == "param" and not any(
+            x.get("k") in ("assign", "assignop", "call", "mcall") for x in fi.nodes if not x.get("mac"))
+        ctx.check("C13.D", "%s:__iter__" % short, ok, "__iter__ returns the object itself, untouched",
+                  "__iter__ is not the identity (`%s`, %d statement(s)): iterating a partly consumed generator would not "
+                  "continue where it stands" % (show(t), len(fi.body.get("stmts", []))), fi.fn["sp"])
+    # the generator field is written nowhere but in the constructor's struct literal
+    gw = []
+    for fv in ctx.all_views(lambda f: f["npath"].startswith("pybindings::")):
+        for n in fv.nodes:
+            if n.get("k") in ("assign", "assignop") and n["l"].get("k") == "field" and n["l"]["name"] == g["gen"] \
+                    and n["l"].get("adt") == g["adt"]:
+                gw.append(n)
+    ctx.check("C13.D", "%s:generator_never_replaced" % short, not gw, "`%s` is assigned only by the constructor" % g["gen"],
+              "the core generator held by %s is replaced after construction: the stream restarts or changes under the "
+              "caller" % short, line_of(gw[0]) if gw else None)
     fnew = ctx.need("C13.D", g["new"])
     if fnew is not None:
         calls = fnew.calls_to(g["core_new"])
@@ -365,6 +387,7 @@ def registration_rule(ctx):
             pyc.add(norm_path(i["self_adt"]))
     ctx.check("C13.R", "pybindings:pyclasses", pyc == PYCLASSES, "#[pyclass] types: %s" % sorted(pyc),
               "#[pyclass] types are %s, the four documented classes are %s" % (sorted(pyc), sorted(PYCLASSES)), None)
+    class_names_rule(ctx)
     for unit in ("pip-pykmertools-cdylib", "conda-pykmertools-cdylib"):
         fv = ctx.view("pykmertools::pykmertools", unit)
         if fv is None:
@@ -380,6 +403,20 @@ def registration_rule(ctx):
                   "%s registers %s" % (unit.split("-")[0], sorted(r.split("::")[-1] for r in reg)),
                   "flavour %s registers %s but the #[pyclass] types are %s" % (unit.split("-")[0], sorted(reg), sorted(pyc)),
                   fv.fn["sp"])
+
+
+def class_names_rule(ctx, only=None):
+    """each class is exported under its documented Python name (add_class stores a type under PyTypeInfo::NAME: two
+    classes with one name overwrite each other in the module)"""
+    for adt in sorted(PYCLASSES):
+        short = adt.split("::")[-1]
+        if only is not None and short not in only:
+            continue
+        fv = ctx.view("<%s as pyo3::PyTypeInfo>::NAME" % adt)
+        got = fv.term(fv.fn["body"]) if fv is not None and isinstance(fv.fn.get("body"), dict) else None
+        ctx.check("C13.R", "%s:python_name" % short, got == L(short), "exported as pykmertools.%s" % short,
+                  "class %s is exported to Python under the name %s: `pykmertools.%s` is missing or is another class"
+                  % (short, show(got) if got else "<unknown>", short), fv.fn["sp"] if fv is not None else None)
 
 
 def profile_rule(ctx):
@@ -403,14 +440,21 @@ def profile_rule(ctx):
 
 
 def kmer_binding_rules(ctx):
-    """the Python k-mer iterator is the core iterator over the string's bytes (delegation + ownership)"""
+    """the Python k-mer iterator is the core iterator over the string's bytes (delegation + ownership), exported
+    under its own name with its documented signature"""
     delegation_rule(ctx, PYK)
     ownership_rule(ctx, PYK)
+    class_names_rule(ctx)
+    py_signature_rule(ctx, only=("kmer.",))
+    ctor_unguarded_rule(ctx, only=("KmerGenerator",))
 
 
 def minimiser_binding_rules(ctx):
     delegation_rule(ctx, PYM)
     ownership_rule(ctx, PYM)
+    class_names_rule(ctx)
+    py_signature_rule(ctx, only=("min.",))
+    ctor_unguarded_rule(ctx, only=("MinimiserGenerator",))
 
 
 
@@ -428,12 +472,14 @@ PY_SIGNATURES = {   # wrapper -> (required positional parameters, parameter name
 }
 
 
-def py_signature_rule(ctx):
+def py_signature_rule(ctx, only=None):
     """the Python-visible call signatures (names, how many are required — i.e. which have defaults) are the documented
     ones: read from the argument descriptions pyo3 generates (`norm=True` lives only in the #[pyo3(signature)] attribute)"""
     for wrapper, (req, names) in sorted(PY_SIGNATURES.items()):
         fv = ctx.view(wrapper + "::DESCRIPTION")
         who = wrapper.split("::")[-3] + "." + wrapper.split("__pymethod_")[1].rstrip("_")
+        if only is not None and not who.startswith(only):
+            continue
         if fv is None:
             ctx.fail("C13.V", "%s:py_signature" % who, "python method `%s` is no longer exported" % who)
             continue
@@ -450,13 +496,13 @@ def py_signature_rule(ctx):
                   "worked raise TypeError" % (who, got, (req, names)), fv.fn["sp"])
 
 
-def ctor_unguarded_rule(ctx):
+def ctor_unguarded_rule(ctx, only=None):
     """the binding constructors only move their arguments into the core constructors: no added precondition, no early
     error (every size the core accepts is accepted from Python)"""
     for path in ("pybindings::kmer::KmerGenerator::new", "pybindings::min::MinimiserGenerator::new",
                  "pybindings::oligo::OligoComputer::new", "pybindings::cgr::CgrComputer::new"):
         fv = ctx.view(path)
-        if fv is None:
+        if fv is None or (only is not None and path.split("::")[-2] not in only):
             continue
         branchy = [x for x in fv.nodes if x.get("k") in ("if", "match", "ret", "try") and not x.get("mac")]
         ctx.check("C13.D", "%s:unconditional" % path.split("::")[-2], not branchy and "Result" not in (fv.fn.get("ret") or ""),
